@@ -739,7 +739,11 @@ class Machine:
             if k == 'assign':
                 if sm[2][0] in ('ctor', 'struct'):
                     d = sm[1]; s.hint = d[2] if d[2] is not None else (f.locals.get(d[0]) or (f.ret if d[0] == '_0' else None)) if not d[1] else d[2]
-                val = s.rvalue(st, fr, sm[2]); root, path = s.resolve(st, fr, sm[1]); s.store(st, root, path, val)
+                try:
+                    val = s.rvalue(st, fr, sm[2])
+                except InternalError as e:
+                    raise InternalError(f'{e} [in {f.name} bb{fr.bb}: {sm!r}]'[:900])
+                root, path = s.resolve(st, fr, sm[1]); s.store(st, root, path, val)
             elif k == 'nop':
                 pass
             elif k == 'setdiscr':
@@ -1138,6 +1142,9 @@ class Machine:
         if key in s._resolve_cache: return s._resolve_cache[key]
         r = s._local_fn(callee, caller_crate); s._resolve_cache[key] = r; return r
 
+    _STD_HEADS = frozenset(('Option', 'Result', 'bool', 'Vec', 'VecDeque', 'String', 'str', 'Duration', 'Instant', 'Arc', 'Weak', 'Mutex', 'RwLock', 'HashMap',
+                            'Box', 'Cow', 'Pin', 'Poll', 'Ordering', 'AtomicUsize', 'AtomicIsize', 'AtomicBool', 'Semaphore', 'usize', 'u64', 'u32', 'isize', 'u128', 'u8', 'u16', 'i64', 'i32'))
+
     def _local_fn(s, callee, caller_crate=None):
         if callee in s.fns: return callee
         mq = re.match(r'^<(.+) as (.+?)>::(\w+)(::<.*>)?$', callee)
@@ -1167,7 +1174,12 @@ class Machine:
         if not mq:
             exact = [c for c in cands if c == callee or c.endswith('::' + '::'.join(x for x in [tyname, last] if x))]
             free = [c for c in cands if '<impl at' not in c]
-            if len(cands) == 1: return cands[0]
+            if len(cands) == 1:
+                # `Option::<T>::or` is not the crate's own `Timeouts::or` just because that is the only body called `or`
+                f1 = s.fns[cands[0]]
+                if tyname in s._STD_HEADS and '<impl at' in cands[0] and not re.search(r'(?<![\w])' + re.escape(tyname) + r'(?![\w])', (f1.params[0][1] if f1.params else '') + ' -> ' + f1.ret):
+                    return None
+                return cands[0]
             if tyname is None and len(free) == 1: return free[0]
 
         def mentions(f):
